@@ -65,6 +65,31 @@ Theorem C10_rib_reject_is_noop :
 Proof. exact rib_unit_reject. Qed.
 Print Assumptions C10_rib_reject_is_noop.
 
+(* the same over whole histories of any length: a filtered unit is the
+   unfiltered unit fed with the accepted items only - same final state, same
+   updates sent, in the same order - while every item's output entries are
+   sent whether it was accepted or not *)
+Theorem C10_filtered_session_is_unfiltered_on_accepted :
+  forall (S M U O : Type) (f : M -> bool * list out) (render : M -> out -> option O)
+         (process : S -> M -> S * list U) ms s,
+    let acc := List.filter (fun m => fst (f m)) ms in
+    fst (msg_run (Some f) render process s ms) = fst (msg_run None render process s acc) /\
+    upds_of (snd (msg_run (Some f) render process s ms)) = upds_of (snd (msg_run None render process s acc)) /\
+    outs_of (snd (msg_run (Some f) render process s ms)) = flat_map (fun m => omap (render m) (snd (f m))) ms /\
+    outs_of (snd (msg_run None render process s acc)) = [].
+Proof. exact (@msg_run_history). Qed.
+Print Assumptions C10_filtered_session_is_unfiltered_on_accepted.
+
+Theorem C10_filtered_rib_is_unfiltered_on_accepted :
+  forall (R P O : Type) (f : P -> bool * list out) (render : P -> out -> option O) (insert : R -> P -> R) us r,
+    let acc := map (List.filter (fun p => fst (f p))) us in
+    fst (rib_run_site (Some f) render insert r us) = fst (rib_run_site None render insert r acc) /\
+    upds_of (snd (rib_run_site (Some f) render insert r us)) = upds_of (snd (rib_run_site None render insert r acc)) /\
+    outs_of (snd (rib_run_site (Some f) render insert r us)) =
+      flat_map (fun ps => flat_map (fun p => omap (render p) (snd (f p))) ps) us.
+Proof. exact (@rib_run_history). Qed.
+Print Assumptions C10_filtered_rib_is_unfiltered_on_accepted.
+
 (* bmp-in in front of the session state machine; bgp-in in front of the explosion *)
 Theorem C10_bmp_verdict :
   forall lb render p rid st m,
